@@ -360,7 +360,7 @@ def run(ck, m):
                     got = any(all(bool(_aev3(t_, env_)) for t_ in cj) for cj in trees)
                     want = env_["check_size"] and (w_ > tw_ or (not env_["allow_scroll"] and h_ > th_))
                     if got != want:
-                        verdict3 = f"a {w_}x{h_} render on a {tw_}x{th_} terminal with {dict(zip(fl, bits))} is {'rejected' if got else 'accepted'}"
+                        verdict3 = f"a {w_}x{h_} render on a {tw_}x{th_} terminal with check_size={env_['check_size']}, allow_scroll={env_['allow_scroll']} is {'rejected' if got else 'accepted'}"
                         raise StopIteration
             verdict3 = ""
         except StopIteration:
